@@ -12,6 +12,7 @@ size_t g_ce_gen_calls, g_ce_done, g_ce_reseeds, g_ce_reseed_early, g_ce_inst; ui
 
 /* arbitrary DRBG state, arbitrary call counter, arbitrary window placement, arbitrary ghost indices */
 #define DRBG_PRE() \
+	insecure_memzero_ptr = insecure_memzero_func;	/* DFCC makes statics nondet; the library never reassigns it */ \
 	__CPROVER_havoc_object(&drbg); \
 	__CPROVER_havoc_object(&g_hm); \
 	IN(size_t, hm_n0); IN(size_t, hm_base); IN(size_t, bi); IN(size_t, di); \
